@@ -3,6 +3,7 @@ package rules
 import (
 	"fmt"
 	"go/ast"
+	"go/constant"
 	"go/token"
 	"go/types"
 	"sort"
@@ -26,6 +27,72 @@ func init() {
 	})
 }
 
+// chainCall is one pop.Query method call of the chain a statement is executed on; helper is the call (in the
+// function that executes the statement) of the repository helper the call sits in, nil when it sits in that
+// function itself.
+type chainCall struct {
+	call   *ssa.Call
+	helper *ssa.Call
+}
+
+// pageChain follows the receiver of the first pop All(...) in g back through the query chain, one level into a
+// helper of the repository that returns the query it builds.
+func pageChain(g *ssa.Function) []chainCall {
+	var all *ssa.Call
+	core.Instrs(g, func(_ *ssa.BasicBlock, _ int, ins ssa.Instruction) {
+		if call, ok := ins.(*ssa.Call); ok && all == nil {
+			if obj := core.CalleeObj(call.Common()); obj != nil && obj.Pkg() != nil && obj.Pkg().Path() == "github.com/gobuffalo/pop/v6" && obj.Name() == "All" {
+				all = call
+			}
+		}
+	})
+	if all == nil || len(all.Common().Args) == 0 {
+		return nil
+	}
+	var out []chainCall
+	var helper *ssa.Call
+	v := all.Common().Args[0]
+	seen := map[ssa.Value]bool{}
+	for i := 0; i < 32; i++ {
+		v = core.ValueOrigin(v)
+		c, ok := v.(*ssa.Call)
+		if !ok || seen[v] {
+			return out
+		}
+		seen[v] = true
+		obj := core.CalleeObj(c.Common())
+		if obj == nil {
+			return out
+		}
+		if obj.Pkg() != nil && obj.Pkg().Path() == "github.com/gobuffalo/pop/v6" {
+			sig := obj.Type().(*types.Signature)
+			if sig.Recv() != nil && core.IsNamed(sig.Recv().Type(), "github.com/gobuffalo/pop/v6", "Query") && len(c.Common().Args) > 0 {
+				out = append(out, chainCall{c, helper})
+				v = c.Common().Args[0]
+				continue
+			}
+			return out
+		}
+		sc := c.Common().StaticCallee()
+		if helper == nil && sc != nil && sc.Blocks != nil && obj.Name() != "queryWithNetwork" && core.FuncPkg(sc) != nil && core.IsKeto(core.FuncPkg(sc)) &&
+			sc.Signature.Results().Len() == 1 && core.IsNamed(derefT(sc.Signature.Results().At(0).Type()), "github.com/gobuffalo/pop/v6", "Query") {
+			var rets []*ssa.Return
+			core.Instrs(sc, func(_ *ssa.BasicBlock, _ int, ins ssa.Instruction) {
+				if ret, ok := ins.(*ssa.Return); ok {
+					rets = append(rets, ret)
+				}
+			})
+			if len(rets) == 1 && len(rets[0].Results) == 1 {
+				helper = c
+				v = rets[0].Results[0]
+				continue
+			}
+		}
+		return out
+	}
+	return out
+}
+
 func runC07(c *Ctx) {
 	p, r := c.P, c.R
 	m := BuildSQLModel(p)
@@ -42,40 +109,47 @@ func runC07(c *Ctx) {
 	fname := sqlPkgRel + ".(*Persister).GetRelationTuples"
 	var orderCol, orderDir, cursorCol, cursorOp, cursorArg, limitExpr string
 	var limitBase string
-	ast.Inspect(fd.Body, func(n ast.Node) bool {
-		call, ok := n.(*ast.CallExpr)
-		if !ok {
-			return true
-		}
-		sel, ok := call.Fun.(*ast.SelectorExpr)
-		if !ok {
-			return true
-		}
-		fo, ok := info.Uses[sel.Sel].(*types.Func)
-		if !ok || fo.Pkg() == nil || fo.Pkg().Path() != "github.com/gobuffalo/pop/v6" {
-			return true
-		}
-		switch sel.Sel.Name {
-		case "Order":
-			if s, ok := core.ConstString(info, call.Args[0]); ok {
-				f := strings.Fields(s)
-				if len(f) > 0 {
-					orderCol = f[0]
+	// the calls of the query chain the page is read with, in GetRelationTuples or in the helper that builds it
+	chainAt := map[token.Pos]bool{}
+	if g := p.Func("(*" + sqlPkgRel + ".Persister).GetRelationTuples"); g != nil {
+		for _, cc := range pageChain(g) {
+			obj := core.CalleeObj(cc.call.Common())
+			args := cc.call.Common().Args
+			chainAt[cc.call.Pos()] = true
+			switch obj.Name() {
+			case "Order":
+				if len(args) > 1 {
+					if k, ok := core.Unwrap(args[1]).(*ssa.Const); ok && k.Value != nil && k.Value.Kind() == constant.String {
+						f := strings.Fields(constant.StringVal(k.Value))
+						if len(f) > 0 {
+							orderCol = f[0]
+						}
+						if len(f) > 1 {
+							orderDir = strings.ToUpper(f[1])
+						}
+					}
 				}
-				if len(f) > 1 {
-					orderDir = strings.ToUpper(f[1])
+			case "Limit":
+				la := args[len(args)-1]
+				limitExpr = la.String()
+				if add, ok := la.(*ssa.BinOp); ok && add.Op == token.ADD {
+					for _, pair := range [][2]ssa.Value{{add.X, add.Y}, {add.Y, add.X}} {
+						if k, isK := core.IntConst(pair[1]); isK && k == 1 {
+							limitBase = pair[0].Name()
+							if u, ok := pair[0].(*ssa.UnOp); ok {
+								if fa, ok := u.X.(*ssa.FieldAddr); ok && fieldVarOf(fa) != nil {
+									limitBase = fieldVarOf(fa).Name()
+								}
+							}
+							limitExpr = limitBase + " + 1"
+						}
+					}
 				}
 			}
-		case "Limit":
-			limitExpr = canonExpr(call.Args[0])
-			if base, k, ok := plusConst(info, call.Args[0]); ok && k == 1 {
-				limitBase = canonExpr(base)
-			}
 		}
-		return true
-	})
+	}
 	for _, wf := range m.Wheres {
-		if wf.Fn != fd || wf.Expr == nil {
+		if wf.Expr == nil || wf.Call == nil || !chainAt[wf.Call.Lparen] {
 			continue
 		}
 		for _, a := range wf.Expr.Atoms() {
@@ -1232,10 +1306,14 @@ func hasMore(c *Ctx) hasMoreResult {
 					rowsCell = al
 				}
 			}
-		case "Limit":
-			limitArg = call.Common().Args[len(call.Common().Args)-1]
 		}
 	})
+	var limitHelper *ssa.Call
+	for _, cc := range pageChain(g) {
+		if core.CalleeObj(cc.call.Common()).Name() == "Limit" {
+			limitArg, limitHelper = cc.call.Common().Args[len(cc.call.Common().Args)-1], cc.helper
+		}
+	}
 	if rowsCell == nil {
 		return fail("cannot find the slice the statement's rows are read into (query.All(&rows))")
 	}
@@ -1401,7 +1479,18 @@ func hasMore(c *Ctx) hasMoreResult {
 	if add, ok := limitArg.(*ssa.BinOp); ok && add.Op == token.ADD {
 		for _, pair := range [][2]ssa.Value{{add.X, add.Y}, {add.Y, add.X}} {
 			if k, isK := core.IntConst(pair[1]); isK && k == 1 {
-				if o2, ok := perPageOf(pair[0], scope{fn: g}); ok && o2 == obj {
+				lsc := scope{fn: g}
+				if limitHelper != nil {
+					// the LIMIT is set in the helper that builds the query: its parameters stand for the arguments
+					h := limitHelper.Common().StaticCallee()
+					lsc = scope{fn: h, bind: map[*ssa.Parameter]ssa.Value{}, call: limitHelper}
+					for i, a := range limitHelper.Common().Args {
+						if i < len(h.Params) {
+							lsc.bind[h.Params[i]] = a
+						}
+					}
+				}
+				if o2, ok := perPageOf(pair[0], lsc); ok && o2 == obj {
 					limitOK = true
 				}
 			}
